@@ -828,6 +828,43 @@ def gen_copc(repo):
                 return "Definition gen_ensure3d_fresh : bool := false.\n"
         raise Untranslatable(f"ensure_3d: shape {got}")
     o.add("gen_ensure3d", ensure3d)
+
+    # ---- Bounds is a plain record: building one (by the caller, by ensure_3d, by VoxelKey.bounds, for the root cube) runs no
+    # ---- code of laspy, so it accepts EVERY pair of corners - also a box without thickness (mins[i] == maxs[i]: a 2-D box
+    # ---- completed with the z range of a flat file, a profile plane, a point) - and has no error outcome (the model has none)
+    def bounds_plain():
+        cls = find_class(mod, "Bounds")
+        decos = [_norm(d) for d in cls.decorator_list]
+        if decos != ["dataclass"]:
+            raise Untranslatable(f"Bounds: decorators {decos} (a plain @dataclass is expected)")
+        if cls.bases or cls.keywords:
+            raise Untranslatable("Bounds: base classes / metaclass")
+        fields, methods = [], []
+        for st in cls.body:
+            if isinstance(st, ast.Expr) and isinstance(st.value, ast.Constant) and isinstance(st.value.value, str):
+                continue
+            if isinstance(st, ast.AnnAssign) and isinstance(st.target, ast.Name) and st.value is None:
+                fields.append((st.target.id, _norm(st.annotation)))
+            elif isinstance(st, ast.FunctionDef):
+                methods.append(st.name)
+            else:
+                raise Untranslatable("Bounds: statement in the class body: " + ast.unparse(st)[:80])
+        if fields != [("mins", "np.ndarray"), ("maxs", "np.ndarray")]:
+            raise Untranslatable(f"Bounds: fields {fields}")
+        extra = [m for m in methods if m not in ("overlaps", "ensure_3d")]
+        if extra:
+            raise Untranslatable(f"Bounds: building or using a box runs more code than the model has: {extra} "
+                                 "(a constructor hook can refuse a legal box)")
+        # nothing else of the module gives the class a hook after its definition
+        for n in ast.walk(mod):
+            if isinstance(n, (ast.Assign, ast.AugAssign, ast.AnnAssign)):
+                for t in (n.targets if isinstance(n, ast.Assign) else [n.target]):
+                    if isinstance(t, ast.Attribute) and isinstance(t.value, ast.Name) and t.value.id == "Bounds":
+                        raise Untranslatable("Bounds: attribute of the class assigned outside its body: " + ast.unparse(n)[:80])
+            if isinstance(n, ast.Call) and _norm(n.func) == "setattr" and n.args and _norm(n.args[0]) == "Bounds":
+                raise Untranslatable("Bounds: setattr on the class")
+        return "Definition gen_bounds_plain : bool := true.\n"
+    o.add("gen_bounds_plain", bounds_plain)
     return o
 
 
